@@ -12,6 +12,7 @@ connection and fed to this model as labels (tie D). Transport errors are modelle
 callback theorems hold with them, the wire theorems are stated for a transport that has not failed (`healthy`).
 -/
 import Sonic.Lemmas.WsAsyncStep
+import Sonic.Lemmas.WsAsyncObsRun
 import Sonic.Spec.WsAsync
 
 namespace Sonic.Props.C17
@@ -261,5 +262,76 @@ example : accepts 1000 [.callRead 1, .ret .active, .callWrite 2 1 2, .ret .activ
     .enter 1 .ok (some aPing) none .active, .exit 1, .ret .active, .wire [itsPong, wf 2 1 2]] = false := by decide
 
 end Monitor
+
+/-! ### The property monitor accepts every history of the model (refinement)
+
+`Sonic.Model.WsAsyncObs.otrace max prog {} {} ls` executes the observed labels `ls` on the model from the initial state
+(each is a model label with the concrete data a trace line carries, or an event of the environment: the peer sends a
+frame, the peer reports what it parsed, the run ends) and returns the events a process observes - exactly what the trace
+driver feeds the monitor with for such a trace. For EVERY such run (any program of the callbacks, any length, transport
+failures included) the monitor `Sonic.Spec.WsAsync` accepts these events: by the coupling invariant
+`Sonic.Model.WsAsyncObs.Coup` between model, observer and monitor states (`Lemmas/WsAsyncObsRel.lean`), kept by every step
+(`step_sim`), and induction over the run (`run_sim`). So the callback ledger (never twice, never unknown, no error
+completion on a healthy transport, every callback run at a quiescent end), the wire order (what the peer parses is the
+submitted frames in submission order, replies behind what was queued before) and the read results (what reads deliver is
+the peer's stream) hold of every model history in the very form in which real traces are checked. -/
+
+section Refinement
+open Sonic.Model.WsAsyncObs
+
+/-- **Refinement.** Every observed run of the model is accepted by the property monitor. -/
+theorem C17_monitor_accepts_model (max : Nat) (prog : CbId → List Action) (ls : List OLabel) (evs : List Sonic.Spec.WsAsync.Ev)
+    (h : otrace max prog {} {} ls = some evs) : Sonic.Spec.WsAsync.accepts max evs = true := by
+  obtain ⟨m', hm⟩ := run_sim (max := max) (prog := prog) ls {} {} { max := max } evs init_inv (coup_init max) h
+  unfold Sonic.Spec.WsAsync.accepts
+  rw [show Sonic.Spec.WsAsync.run { max := max } evs = .ok m' from hm]
+
+/-- The observed runs are the model's runs: an observed step takes the model transition its label stands for, and every
+transition the model can take is observed (the observation function is total on them). -/
+theorem C17_observed_steps_are_model_steps {max : Nat} {prog : CbId → List Action} {s s' : St} {o : Ob} {l : OLabel}
+    {lab : Label} (hl : l.label max o = some lab) :
+    (∀ o' evs, ostep max prog s o l = some (s', o', evs) → step true prog s lab = some s') ∧
+    (step true prog s lab = some s' → ∃ o' evs, ostep max prog s o l = some (s', o', evs)) :=
+  ⟨fun _ _ hs => ostep_model hs hl, fun hs => ostep_total hl hs⟩
+
+/-- Non-vacuity: the history of `witnessNew` with concrete data - a Ping `07 07` arrives while read #1 is armed, the
+callback of read #1 starts read #2 (the Pong flush is in flight), AsyncWrite of 5 bytes waits behind it, the peer parses
+the Pong and then the message, a text frame completes read #2, the run ends at rest. The model executes it, the observer
+produces 27 events (with both `wire` reports and the end-of-run check), and by the theorem the monitor accepts them. -/
+def observedRun : List OLabel :=
+  [.call (.read 1), .tau, .ret,
+   .peer { fin := true, rsv := 0, op := 9, masked := false, payload := [7, 7] },
+   .call .poll, .rdGot 1, .enter 1 .ok, .call (.read 2), .ret, .exit 1, .ret,
+   .call (.write 3 1 5), .ret,
+   .call .poll, .wrote 8, .ret, .drain 1,
+   .call .poll, .wrote 5, .ret,
+   .call .poll, .wrote 6, .tau, .enter 3 .ok, .exit 3, .ret, .drain 1,
+   .peer { fin := true, rsv := 0, op := 1, masked := false, payload := [104, 105] },
+   .call .poll, .rdGot 1, .enter 2 .ok, .exit 2, .ret, .finish]
+
+example : (otrace 1000 rearm {} {} observedRun).map List.length = some 27 := by decide
+
+example : ∃ evs, otrace 1000 rearm {} {} observedRun = some evs ∧ Sonic.Spec.WsAsync.accepts 1000 evs = true := by
+  have h : (otrace 1000 rearm {} {} observedRun).isSome = true := by decide
+  obtain ⟨evs, he⟩ := Option.isSome_iff_exists.1 h
+  exact ⟨evs, he, C17_monitor_accepts_model 1000 rearm observedRun evs he⟩
+
+/-- The observer does not observe what the model cannot do: a `drain` that reports a frame the transport has not
+completely accepted is not an observed run. -/
+example : otrace 1000 rearm {} {} [.call (.write 1 1 5), .ret, .drain 1] = none := by decide
+
+/-- Why the monitor is told of transport failures (`transportErr`): the model (like `asyncFlush` in stream.go) completes
+the write whose frame the transport refused with an error. A monitor that cannot see the failure rejects that history
+as "write completed with an error on a healthy transport"; told of it, it accepts - and still rejects the same error
+completion when the transport did not fail. -/
+def failedWrite : List OLabel := [.call (.write 1 1 5), .ret, .call .poll, .wrErr, .enter 1 .err, .exit 1, .ret]
+
+example : (otrace 1000 (fun _ => []) {} {} failedWrite).isSome = true := by decide
+example : Sonic.Spec.WsAsync.accepts 1000 [.callWrite 1 1 5, .ret .active, .callPoll, .transportErr,
+    .enter 1 .err none none .active, .exit 1, .ret .active] = true := by decide
+example : Sonic.Spec.WsAsync.accepts 1000 [.callWrite 1 1 5, .ret .active, .callPoll,
+    .enter 1 .err none none .active, .exit 1, .ret .active] = false := by decide
+
+end Refinement
 
 end Sonic.Props.C17
